@@ -857,6 +857,8 @@ class Length(object):
             other = Length(other)
         if self.amount == other.amount and self.units == other.units:
             return True
+        if self.amount == 0 and other.amount == 0:
+            return True  # Zero is zero in every unit, as in the comparison with the number 0.
         if s is not None:
             o = other.in_pixels()
             if o is not None:
